@@ -47,6 +47,7 @@ def classes():
             for k, r in enumerate(plan['outs']):
                 exported.setdefault(tuple(r), []).append(k)
             extra_bufs = []
+            clash_names = [w.name for w in list(in_wires) + list(out_wires)]
             for j, nd in enumerate(plan['nodes']):
                 for o in range(nd.get('nout', 1)):
                     key = ('n', j, o)
@@ -55,7 +56,10 @@ def classes():
                         sig[key] = out_wires[ks[0]]
                         extra_bufs += [(key, k) for k in ks[1:]]
                     else:
-                        sig[key] = self.wire('s%d_%d' % (j, o), 1 if nd['cls'] == 'Equal' else W)
+                        nm = 's%d_%d' % (j, o)
+                        if plan.get('name_clash') and clash_names:
+                            nm = clash_names.pop(0)
+                        sig[key] = self.wire(nm, 1 if nd['cls'] == 'Equal' else W)
             for j, nd in enumerate(plan['nodes']):
                 i = [sig[tuple(r)] for r in nd['ins']]
                 o = [sig[('n', j, k)] for k in range(nd.get('nout', 1))]
@@ -82,7 +86,8 @@ def classes():
 
 def gen_netlist(rnd, big=False):
     W = rnd.choice([1, 4, 8])
-    n_in = rnd.randrange(1, 5)
+    # blocks without input ports exist too (free-running generators): their first node is a constant
+    n_in = 0 if rnd.random() < 0.1 else rnd.randrange(1, 5)
     n_nodes = rnd.randrange(3, 30 if big else 15)
     chainy = rnd.random()
     nodes = []
@@ -99,6 +104,8 @@ def gen_netlist(rnd, big=False):
             cls = 'Constant'
         else:
             cls = rnd.choice(list(COMB))
+        if n_in == 0 and not outs_of:
+            cls = 'Constant'
         nout = 1
         if cls in ('HLeaf', 'HReg'):
             nin = rnd.randrange(1, 4)
@@ -140,7 +147,7 @@ def gen_netlist(rnd, big=False):
                 t = r[1]
                 while t < n_nodes and nodes[t]['cls'] == 'Equal':
                     t += 1
-                nd['ins'][k] = ['n', t, rnd.randrange(nodes[t]['nout'])] if t < n_nodes else ['i', rnd.randrange(n_in)]
+                nd['ins'][k] = ['n', t, rnd.randrange(nodes[t]['nout'])] if t < n_nodes else (['i', rnd.randrange(n_in)] if n_in else ['n', 0, 0])
     used = set()
     for nd in nodes:
         for r in nd['ins']:
@@ -153,7 +160,8 @@ def gen_netlist(rnd, big=False):
     while len(outs) < n_out:
         c = [('i', k) for k in range(n_in)] + [('n', a, b) for a, b, eq in outs_of if not eq]
         outs.append(list(rnd.choice(c)))
-    return dict(w=W, n_in=n_in, nodes=nodes, outs=outs)
+    # an internal wire may carry the same short name as a wire of the enclosing scope that sits on a port (different owners)
+    return dict(w=W, n_in=n_in, nodes=nodes, outs=outs, name_clash=rnd.random() < 0.15)
 
 
 def features(plan):
